@@ -2,6 +2,8 @@ package main
 
 import (
 	"fmt"
+	"strings"
+	"unicode/utf8"
 
 	distiller "github.com/markusmobius/go-domdistiller"
 	"golang.org/x/net/html"
@@ -90,14 +92,60 @@ func init() {
 	})
 }
 
+var fillerSet = func() map[string]bool {
+	m := map[string]bool{}
+	for _, f := range nonASCIIFillers {
+		m[f] = true
+	}
+	return m
+}()
+
+// strayWord returns the first word of s that is neither a token nor one of
+// the filler words the generator uses ("" if none).
+func strayWord(s string) string {
+	for _, w := range strings.Fields(s) {
+		w = strings.Trim(w, ".,;:!?()[]\"'*~-\u2014\u2022\u2020")
+		if w == "" || fillerSet[w] || fillerSet[w+"\u2020"] {
+			continue
+		}
+		if m := rxTok.FindString(w); m == w {
+			continue
+		}
+		return w
+	}
+	return ""
+}
+
 func runC02(c *Ctx, idx int) {
 	prof := fullProfile()
 	prof.Skipped = false
+	prof.NonASCII = idx%2 == 1 // odd cases are delivered as parsed trees
 	ar, ok := c.runArticle(idx, prof, nil)
 	if !ok {
 		return
 	}
 	L := ar.G.L
+	// nothing invented: every word of the output is a word of the source
+	if !utf8.ValidString(ar.Res.Text) {
+		c.Violation("invalid-utf8:text", "Result.Text is not valid UTF-8", ar.witness(nil))
+		return
+	}
+	if w := strayWord(ar.Res.Text); w != "" {
+		c.Violation("invented-word:text", fmt.Sprintf("Result.Text contains the word %q, which is not a word of the source", w), ar.witness(map[string]any{"word": w}))
+		return
+	}
+	var htmlText strings.Builder
+	walk(ar.Res.Node, func(n *html.Node) bool {
+		if n.Type == html.TextNode {
+			htmlText.WriteString(" " + n.Data + " ")
+		}
+		return true
+	})
+	if w := strayWord(htmlText.String()); w != "" {
+		c.Violation("invented-word:html", fmt.Sprintf("the distilled HTML contains the word %q, which is not a word of the source", w), ar.witness(map[string]any{"word": w}))
+		return
+	}
+	c.Inc("docs_all_words_checked")
 	check := func(view string, toks []string) int {
 		last := 0
 		seen := map[string]bool{}
